@@ -85,6 +85,29 @@ def force(v):
     return v
 
 
+def hkey(v):
+    """a dictionary key: scalars stand for themselves, lists and maps (both
+    are immutable values in the language, hence usable as keys) for a
+    hashable form that is equal exactly when the values are equal"""
+    if isinstance(v, (list, LazySeq)):
+        return ('#list', tuple(hkey(x) for x in v))
+    if isinstance(v, dict):
+        return ('#map', frozenset((k, hkey(w)) for k, w in v.items()))
+    return v
+
+
+def has_container_key(v, depth=0):
+    if depth > 40:
+        return False
+    if isinstance(v, dict):
+        return any(isinstance(k, tuple) and k[:1] in (('#list',), ('#map',))
+                   for k in v) or any(has_container_key(w, depth + 1)
+                                      for w in v.values())
+    if isinstance(v, list):
+        return any(has_container_key(x, depth + 1) for x in v)
+    return False
+
+
 def is_num(v):
     return isinstance(v, (int, float)) and not isinstance(v, bool)
 
@@ -119,10 +142,7 @@ class Interp:
         if k == 'map':
             out = {}
             for a, b in n[1]:
-                key = self.ev(a, fr)
-                if isinstance(key, (list, dict)):
-                    raise ModelError('unhashable key')
-                out[key] = self.ev(b, fr)
+                out[hkey(self.ev(a, fr))] = self.ev(b, fr)
             return out
         if k == 'idx':
             c = self.ev(n[1], fr)
@@ -133,7 +153,8 @@ class Interp:
                     raise ModelError('index')
                 return c[i]
             if isinstance(c, dict):
-                if isinstance(i, (list, dict)) or i not in c:
+                i = hkey(i)
+                if i not in c:
                     raise ModelError('key')
                 return c[i]
             raise ModelError('not indexable')
@@ -141,9 +162,9 @@ class Interp:
             c = self.ev(n[1], fr)
             i = self.ev(n[2], fr)
             d = self.ev(n[3], fr)
-            if not isinstance(c, dict) or isinstance(i, (list, dict)):
+            if not isinstance(c, dict):
                 raise ModelError('not a dict')
-            return c.get(i, d)
+            return c.get(hkey(i), d)
         if k in ('dot', 'qdot'):
             c = self.ev(n[1], fr)
             if k == 'qdot' and c is None:
